@@ -107,11 +107,12 @@ PROPS["C07"] = {
     "quick": {"shards": 8, "budget_s": 15},
     "thorough": {"shards": 16, "budget_s": 240},
     "floor": {"quick": 1000, "thorough": 20000},
-    "require_counters": {"quick": {"cycles_checked": 5000, "direct_address_cells_checked": 17000, "faulted_cycles_checked": 200},
+    "require_counters": {"quick": {"cycles_checked": 5000, "direct_address_cells_checked": 17000, "faulted_cycles_checked": 200, "idle_cycles_checked": 1000},
                          "thorough": {"cycles_checked": 200000}},
     "rule": "case = binding set (1-5 %I, 1-5 %Q, 0-2 %M bindings; sizes X/B/W/D/L at offsets incl. 0 and the image end; every type of that size; "
             "global or program-level AT; 20% allow overlapping %Q) x 2-7 cycles of random driver input bytes and output stimuli, optionally ending in a "
-            "faulting cycle. distinct = sorted binding-set shape; non-trivial = >=1 input and >=1 output binding exercised with changing driver input. "
+            "faulting cycle; in a third of the cases every program is bound to a task and 40% of the cycles let no time pass, so nothing is due (idle cycles: drivers must still be "
+            "read and written once, outputs keep encoding the variables' values). distinct = sorted binding-set shape; non-trivial = >=1 input and >=1 output binding exercised with changing driver input. "
             "Plus one exhaustive sweep: 3 areas x 5 sizes x 16 byte offsets x 8 bits x 3 backgrounds x 5 values x {pre-sized, growing image}",
     "level_text": "Two probe drivers log every read_inputs/write_outputs with a global sequence number, a copy of the image and the interpreter's "
                   "statement counter (hook H1). Per cycle the monitor checks: call sequence is exactly [read x D][program code][write x D]; every read of an "
